@@ -67,6 +67,7 @@ func FuzzEncryptedSSHIdentity(f *testing.F)      { fuzzTarget(f, "EncryptedSSHId
 func FuzzPluginParseRecipient(f *testing.F)      { fuzzTarget(f, "PluginParseRecipient") }
 func FuzzPluginParseIdentity(f *testing.F)       { fuzzTarget(f, "PluginParseIdentity") }
 func FuzzPluginIdentityWithoutData(f *testing.F) { fuzzTarget(f, "PluginIdentityWithoutData") }
+func FuzzDecryptKeyed(f *testing.F)              { fuzzTarget(f, "DecryptKeyed") }
 func FuzzUnwrapStanzas(f *testing.F)             { fuzzTarget(f, "UnwrapStanzas") }
 
 // TestTargetsOnSeeds lets `go test` (without -fuzz) exercise every target on
